@@ -199,7 +199,7 @@ func quote(s string) string {
 // wrapAtom renders e, parenthesised unless it is atomic.
 func wrapAtom(e Expr) string {
 	switch x := e.(type) {
-	case *Bin, *Un, *Cast, *Catch, *Borrow, *FuncLit:
+	case *Bin, *Un, *Cast, *Catch, *Borrow, *FuncLit, *Coalesce:
 		return "(" + X(e) + ")"
 	case *IntLit:
 		if x.V.Sign() < 0 && !x.Typed {
@@ -305,6 +305,10 @@ func X(e Expr) string {
 		return s + wrapAtom(e.Fallback)
 	case *Len:
 		return "len(" + X(e.X) + ")"
+	case *NoneLit:
+		return "none"
+	case *Coalesce:
+		return wrapAtom(e.X) + " ?? " + wrapAtom(e.D)
 	case *Paren:
 		return "(" + X(e.X) + ")"
 	}
